@@ -68,6 +68,11 @@ def classify(out, rc, timed_out):
     unwind = [c for c in failed if _is_unwind(c)]
     unsupported = [c for c in failed if _is_unsupported(c)]
     real = [c for c in failed if not _is_unwind(c) and not _is_unsupported(c)]
+    errored = [c for c in checks if c["status"] == "ERROR"]
+    if errored and not real:
+        res["status"] = "undecided"
+        res["reason"] = "solver error on %d checks (memory cap or solver failure)" % len(errored)
+        return res
     if "VERIFICATION:- SUCCESSFUL" in out and not failed:
         if res["covers_total"] and res["covers_satisfied"] < res["covers_total"]:
             res["status"] = "undecided"
@@ -185,6 +190,124 @@ def run_all(scratch, obs, fs, capacity, log_dir, progress=None):
                                     "_out": ""}
             if progress:
                 progress(ob, results[ob.name])
+    return results
+
+
+_THREAD_START = re.compile(r"^Thread (\d+): Checking harness (\S+?)\.\.\.\s*$", re.M)
+_FAILED_CHECK = re.compile(r"^Failed Checks: (.*)\n File: \"([^\"]*)\", line (\d+), in (.*)$", re.M)
+
+
+def classify_terse(block):
+    """Classify one per-thread result block of `--output-format terse`."""
+    res = {"n_checks": 0, "failed": [], "covers_total": 0, "covers_satisfied": 0, "reason": "", "solver_s": None}
+    m = re.search(r"\*\* (\d+) of (\d+) failed", block)
+    if m:
+        res["n_checks"] = int(m.group(2))
+    m = re.search(r"\*\* (\d+) of (\d+) cover properties satisfied", block)
+    if m:
+        res["covers_satisfied"], res["covers_total"] = int(m.group(1)), int(m.group(2))
+    m = re.search(r"Verification Time: ([0-9.]+)s", block)
+    if m:
+        res["solver_s"] = float(m.group(1))
+    failed = [{"id": "", "description": f[0].strip(), "location": "%s:%s in %s" % (f[1], f[2], f[3].strip()),
+               "status": "FAILURE"} for f in _FAILED_CHECK.findall(block)]
+    # Failed Checks lines without a File line
+    for l in re.findall(r"^Failed Checks: (.*)$", block, re.M):
+        if not any(c["description"] == l.strip() for c in failed):
+            failed.append({"id": "", "description": l.strip(), "location": "", "status": "FAILURE"})
+    unwind = [c for c in failed if _is_unwind(c)]
+    unsupported = [c for c in failed if _is_unsupported(c)]
+    real = [c for c in failed if not _is_unwind(c) and not _is_unsupported(c)]
+    if "CBMC timed out" in block:
+        res["status"], res["reason"] = "undecided", "timeout"
+    elif "VERIFICATION:- SUCCESSFUL" in block and not failed:
+        if res["covers_total"] and res["covers_satisfied"] < res["covers_total"]:
+            res["status"] = "undecided"
+            res["reason"] = "vacuity guard: %d of %d cover properties satisfied" % (
+                res["covers_satisfied"], res["covers_total"])
+        elif res["n_checks"] == 0:
+            res["status"], res["reason"] = "undecided", "vacuity guard: zero checks generated"
+        else:
+            res["status"] = "discharged"
+    elif "VERIFICATION:- FAILED" in block:
+        if unwind:
+            res["status"] = "undecided"
+            res["reason"] = "unwinding assertion failed (bound too small for this code): %s" % unwind[0]["location"]
+            res["failed"] = unwind[:5]
+        elif real:
+            res["status"] = "violated"
+            res["failed"] = real
+            res["reason"] = "; ".join(sorted(set(c["description"] for c in real))[:6])
+        elif unsupported:
+            res["status"] = "undecided"
+            res["reason"] = "unsupported construct reachable: %s" % unsupported[0]["description"]
+        else:
+            res["status"] = "undecided"
+            res["reason"] = "CBMC failed without a failed property check (memory cap, solver error): %s" % \
+                            " ".join(block.split())[:200]
+    else:
+        res["status"] = "undecided"
+        res["reason"] = "no verdict for this harness (driver crashed or was killed)"
+    return res
+
+
+def run_batch(scratch, obs, fs, jobs, log_dir, mem_gb=7.0):
+    """One `cargo kani` invocation for many light harnesses: one compile, `jobs` CBMC processes in parallel.
+    Returns {name: result}."""
+    if not obs:
+        return {}
+    tmo = max(o.timeout for o in obs)
+    cmd = ["cargo", "kani", "-p", "regress"] + KANI_Z + features_args(fs)
+    for o in obs:
+        cmd += ["--harness", o.harness_path()]
+    cmd += ["--exact", "-j", str(max(1, min(jobs, len(obs)))), "--output-format", "terse",
+            "--harness-timeout", "%ds" % tmo]
+    t0 = time.time()
+    rc, out, secs, to = run(cmd, cwd=scratch, env=offline_env(), timeout=tmo * (2 + len(obs) // max(1, jobs)) + 600,
+                            mem_gb=mem_gb)
+    if log_dir:
+        os.makedirs(log_dir, exist_ok=True)
+        with open(os.path.join(log_dir, "batch@%s.log" % fs.replace(",", "+")), "w") as f:
+            f.write(out)
+    # split into per-thread blocks
+    events = []  # (pos, thread, harness or None)
+    for m in _THREAD_START.finditer(out):
+        events.append((m.start(), int(m.group(1)), m.group(2)))
+    for m in re.finditer(r"^Thread (\d+): *$", out, re.M):
+        events.append((m.start(), int(m.group(1)), None))
+    events.sort()
+    current = {}
+    blocks = {}
+    for i, (pos, th, h) in enumerate(events):
+        end = events[i + 1][0] if i + 1 < len(events) else len(out)
+        m2 = re.search(r"^Manual Harness Summary", out[pos:end], re.M)
+        if m2:
+            end = pos + m2.start()
+        if h is not None:
+            current[th] = h
+        else:
+            hn = current.get(th)
+            if hn:
+                blocks[hn] = out[pos:end]
+    results = {}
+    short_cmd = " ".join(cmd[:8] + ["--harness", "<each>", "--exact", "-j", str(jobs), "--output-format", "terse"])
+    for o in obs:
+        b = blocks.get(o.harness_path())
+        if b is None:
+            if "could not compile" in out:
+                r = {"status": "undecided", "reason": "compile error in scratch crate", "n_checks": 0, "failed": [],
+                     "covers_total": 0, "covers_satisfied": 0, "solver_s": None}
+            else:
+                r = {"status": "undecided", "reason": "harness produced no result block (batch killed or timed out)",
+                     "n_checks": 0, "failed": [], "covers_total": 0, "covers_satisfied": 0, "solver_s": None}
+            b = ""
+        else:
+            r = classify_terse(b)
+        r["wall_s"] = round(r.get("solver_s") or 0.0, 1)
+        r["cmd"] = " ".join(harness_cmd(o, fs))
+        r["_out"] = b
+        r["batch_wall_s"] = round(secs, 1)
+        results[o.name] = r
     return results
 
 
